@@ -574,6 +574,17 @@ analyze_extent (pixman_image_t       *image,
     return TRUE;
 }
 
+/* The same admission test for callers outside this file that dispatch
+ * fast paths themselves (pixman_composite_glyphs_no_mask)
+ */
+pixman_bool_t
+_pixman_analyze_extent (pixman_image_t       *image,
+			const pixman_box32_t *extents,
+			uint32_t             *flags)
+{
+    return analyze_extent (image, extents, flags);
+}
+
 /*
  * Work around GCC bug causing crashes in Mozilla with SSE2
  *
